@@ -107,3 +107,30 @@ def center_find(ctx, det, centers=1, threshold=0.5, blursize=3.0):
     from holopy.core.process import center_find as f
     return np.asarray(f(val(ctx, det), centers=centers, threshold=threshold,
                         blursize=blursize))
+
+
+@op('mutate_image', mutates=('det',))
+def mutate_image(ctx, det, seed, lo=1.0, hi=3.0):
+    """The user refreshes an image they hold IN PLACE (e.g. a new background
+    frame written into the same array)."""
+    d = val(ctx, det)
+    rs = np.random.RandomState(seed)
+    d.values[...] = rs.uniform(lo, hi, d.shape)
+    return d.copy()
+
+
+@op('forget')
+def forget(ctx, obj):
+    """The user drops a reference (del): the object may be freed and its
+    memory - and id() - reused by a later object."""
+    import gc
+    if not (isinstance(obj, dict) and 'ref' in obj):
+        return None
+    oid = obj['ref']
+    kind = ctx.kind_of.pop(oid, None)
+    ctx.objs.pop(oid, None)
+    ctx.hist.pop(oid, None)
+    if kind in ctx.kinds and oid in ctx.kinds[kind]:
+        ctx.kinds[kind].remove(oid)
+    gc.collect()
+    return None
